@@ -47,6 +47,25 @@ func dischargeAll(ctx *Ctx, obls []*Obligation, timeoutS, par int, dump string) 
 				out[i] = Discharged{o, SolveResult{Status: st, Solver: "syntactic"}}
 				return
 			}
+			if o.Expect == "unsat" && o.Neg != "" {
+				// conjuncts of the goal that are literally among the assumptions
+				// (up to renaming of bound variables) need no solver
+				have := map[string]bool{}
+				for _, p := range o.PC {
+					have[alphaNorm(p)] = true
+				}
+				var rest []string
+				for _, c := range splitAnd(o.Neg) {
+					if c != "true" && !have[alphaNorm(c)] {
+						rest = append(rest, c)
+					}
+				}
+				if len(rest) == 0 {
+					out[i] = Discharged{o, SolveResult{Status: "unsat", Solver: "syntactic"}}
+					return
+				}
+				o.Neg = and(rest...)
+			}
 			script := o.Render(pre)
 			if dump != "" {
 				os.MkdirAll(dump, 0o755)
@@ -59,16 +78,37 @@ func dischargeAll(ctx *Ctx, obls []*Obligation, timeoutS, par int, dump string) 
 			}
 			// first try with the assumptions near the goal only (sound: fewer assumptions), then with all
 			if len(o.PC) >= 40 {
-				small := o.RenderDepth(3)
-				if dump != "" {
-					os.WriteFile(filepath.Join(dump, sanitize(o.Name)+".near.smt2"), []byte(small), 0o644)
+				solved := false
+				seenLen := map[int]bool{len(script): true}
+				type att struct {
+					d    int
+					hide bool
 				}
-				if len(small) < len(script)*3/4 {
-					if r := Solve(small, minInt(timeoutS, 5), nil); r.Status == "unsat" {
-						r.Solver += "(near)"
-						out[i] = Discharged{o, r}
-						return
+				for _, a := range []att{{-1, true}, {1, true}, {0, true}, {1, false}, {2, false}, {4, false}} {
+					small := o.RenderOpts(a.d, a.hide)
+					if seenLen[len(small)] || (!a.hide && len(small) >= len(script)*9/10) {
+						continue
 					}
+					seenLen[len(small)] = true
+					tag := fmt.Sprintf("near%d", a.d)
+					if a.d < 0 {
+						tag = "fam"
+					}
+					if a.hide {
+						tag += "h"
+					}
+					if dump != "" {
+						os.WriteFile(filepath.Join(dump, fmt.Sprintf("%s.%s.smt2", sanitize(o.Name), tag)), []byte(small), 0o644)
+					}
+					if r := Solve(small, minInt(timeoutS, 4), nil); r.Status == "unsat" {
+						r.Solver += "(" + tag + ")"
+						out[i] = Discharged{o, r}
+						solved = true
+						break
+					}
+				}
+				if solved {
+					return
 				}
 			}
 			out[i] = Discharged{o, Solve(script, timeoutS, nil)}
@@ -208,6 +248,24 @@ func retryUndecided(out []Discharged, timeoutS, max int) {
 		}(i)
 	}
 	wg.Wait()
+}
+
+var boundVarRe = regexp.MustCompile(`[A-Za-z_][A-Za-z_0-9]*!q[0-9]+`)
+
+// alphaNorm renames bound variables (name!qN) by order of first occurrence.
+func alphaNorm(f string) string {
+	if !strings.Contains(f, "!q") {
+		return f
+	}
+	m := map[string]string{}
+	return boundVarRe.ReplaceAllStringFunc(f, func(v string) string {
+		if r, ok := m[v]; ok {
+			return r
+		}
+		r := fmt.Sprintf("b!%d", len(m))
+		m[v] = r
+		return r
+	})
 }
 
 func minInt(a, b int) int {
